@@ -399,7 +399,7 @@ func buildController(sc *Scenario) (world, error) {
 	}
 	// sync committee records of earlier slots, so that the clean-up of old records has something to do
 	for i := uint64(0); i < sc.P["pre"]; i++ {
-		_, _ = msgr.Message(context.Background(), newSyncDuty(accts, w.nVals, w.start-sc.P["pre"]+i, w.f))
+		_, _ = msgr.Message(context.Background(), newSyncDuty(accts, w.nVals, w.start-sc.P["pre"]+i, w.f, nil))
 	}
 	w.sched = &ctlSched{jobs: map[string]*ctlJob{}, due: sc.P["due"],
 		now: func() time.Time {
